@@ -655,7 +655,12 @@ func c19Run(repo, fitgen, dir string, cfg c19Config) (string, c19Info) {
 			ro, _ := filepath.Rel(dir, out)
 			cmd = exec.Command(fitgen, rz, ro)
 		} else {
-			cmd = exec.Command(fitgen, zipPath, out)
+			// the archive under another name: the release is then named by the -sdk flag alone
+			renamed := filepath.Join(zipDir, "sdk download (1).zip")
+			if zb, err := os.ReadFile(zipPath); err == nil {
+				os.WriteFile(renamed, zb, 0o644)
+			}
+			cmd = exec.Command(fitgen, "-sdk", cfg.version, renamed, out)
 		}
 		cmd.Dir = dir
 		// the four runs differ in what must not matter: run 1 regenerates in place (the output
